@@ -258,6 +258,9 @@ func (p *VP9Packet) Unmarshal(packet []byte) ([]byte, error) { // nolint:cyclop
 		return nil, errShortPacket
 	}
 
+	// start from a clean value so that a reused receiver decodes like a fresh one
+	*p = VP9Packet{videoDepacketizer: p.videoDepacketizer}
+
 	p.I = packet[0]&0x80 != 0
 	p.P = packet[0]&0x40 != 0
 	p.L = packet[0]&0x20 != 0
